@@ -388,12 +388,40 @@ fn models(tier: Tier) -> Vec<(String, Arc<M>, Vec<Plan>)> {
     out
 }
 
+/// The same clause in the shell world: the real routing path (`handle_srt_packet` ->
+/// `forward_via_connection`, tracker insert, threshold flush, send failures via a closed receiver port)
+/// against the harness's own record of which link got the unique copy last.
+fn world_models(tier: Tier) -> Vec<(String, Arc<super::stream::StreamModel>, Vec<Plan>)> {
+    use super::stream::{InitKind, Oracles, SEv, StreamModel};
+    let or = Oracles { c01: false, c03: false, c04: false, c10: false, c05: true };
+    let events = vec![SEv::Cdata, SEv::Crtx, SEv::UnakSingle(0), SEv::UnakRtx(1), SEv::UnakDup(1), SEv::Fclose(0), SEv::Fclose(1), SEv::Tflush, SEv::Cburst(16)];
+    let inits = vec![("S2 live".to_string(), InitKind::Live { classic: false }), ("S3 streaming".to_string(), InitKind::Streaming { classic: false })];
+    let m = Arc::new(StreamModel { name: "world links=2 (routing path, send failures)".to_string(), n: 2, events, inits, or });
+    let cdata = 0usize;
+    if tier.is_quick() {
+        vec![(m.name.clone(), m, vec![Plan::Full { depth: 4 }, Plan::Dev { k: 3, depth: 20, default: Arc::new(move |_| cdata) }])]
+    } else {
+        vec![(m.name.clone(), m, vec![Plan::Full { depth: 6 }, Plan::Dev { k: 4, depth: 24, default: Arc::new(move |_| cdata) }])]
+    }
+}
+
 pub fn run(tier: Tier) -> Report {
     let mut rep = Report::new();
     let lim = Limits {
         wall: Duration::from_secs(if tier.is_quick() { 40 } else { 2400 }),
         ..Default::default()
     };
+    match crate::world::glue_fingerprint() {
+        Ok(_) => {
+            for (label, m, plans) in world_models(tier) {
+                for plan in plans {
+                    let ex = engine::explore(&*m, &plan, &lim);
+                    engine::fold(&mut rep, &*m, &format!("{label} {}", plan.describe()), &plan, ex);
+                }
+            }
+        }
+        Err(e) => rep.machinery_errors.push(format!("{e} (the world-based exploration was skipped)")),
+    }
     for (label, m, plans) in models(tier) {
         for plan in plans {
             let ex = engine::explore(&*m, &plan, &lim);
@@ -411,6 +439,15 @@ pub fn run(tier: Tier) -> Report {
 }
 
 pub fn replay(v: &Value) -> Result<(), String> {
+    if v["exploration"].as_str().unwrap_or("").starts_with("world ") {
+        let mut ms = Vec::new();
+        for tier in [Tier::Quick, Tier::Thorough] {
+            for (l, m, _) in world_models(tier) {
+                ms.push((l, m));
+            }
+        }
+        return engine::replay_json(&ms, v);
+    }
     let mut ms = Vec::new();
     for tier in [Tier::Quick, Tier::Thorough] {
         for (l, m, _) in models(tier) {
